@@ -138,6 +138,11 @@ func (vc *VC) Run() {
 		for _, f := range fd.Recv.List {
 			for _, n := range f.Names {
 				bindParam(n, vc.info.TypeOf(f.Type))
+				if o, _ := vc.info.Defs[n].(*types.Var); o != nil && vc.sweep && vc.con == nil {
+					if rv, ok := vc.entry.vars[o]; ok && kindOf(rv.T) == KPtr {
+						vc.assume(Ne(rv.C[0], Zero)) // sweep mode: methods are called on non-nil receivers (A-recv)
+					}
+				}
 			}
 		}
 	}
@@ -163,13 +168,22 @@ func (vc *VC) Run() {
 		env := vc.specEnvAt(st, fd.Body.Lbrace+1)
 		env.where = "requires"
 		for _, r := range vc.con.Requires {
-			vc.assume(vc.specBool(env, r.Expr))
+			vc.assume(vc.specAssumable(env, r.Expr))
 		}
 	}
 	vc.cover(st, nil, "requires-satisfiable")
 	f := vc.execBlock(fd.Body.List, st)
 	if f.normal != nil && !f.normal.pc.IsFalse() {
 		vc.finishReturn(f.normal, nil)
+	}
+	// vacuity guard: the function can reach a return under all assumptions made along the way
+	if len(vc.rets) > 0 && vc.outOfSubset == "" {
+		var pcs []*Term
+		for _, r := range vc.rets {
+			pcs = append(pcs, r.pc)
+		}
+		any := &State{pc: Or(pcs...), vars: map[types.Object]Val{}, heaps: map[string]*Term{}}
+		vc.cover(any, nil, "some-return-reachable")
 	}
 }
 
@@ -240,6 +254,10 @@ func (vc *VC) frameFormula(st *State) *Term {
 	}
 	next0 := vc.entryHeap("$nextArr")
 	var conj []*Term
+	if st.epoch > 0 {
+		// a callee without a frame (or an unknown call) ran on this path: nothing can be said about memory
+		conj = append(conj, False)
+	}
 	names := make([]string, 0, len(st.heaps))
 	for k := range st.heaps {
 		names = append(names, k)
